@@ -52,7 +52,7 @@ SchedLeaves == {n \in Nodes : Kind(n) = "sched"}
 OwnsSource(n) == Kind(n) \in {"when_all", "when_any", "stop_when"}     \* reference-counted fan-out with an own stop source
 HasSource(n) == OwnsSource(n) \/ Kind(n) = "lvwss"                       \* ... plus let_value_with_stop_source
 FnKinds == {"then", "thenv", "upon_error", "upon_done", "let_value", "let_error", "let_done",
-            "retry_when", "repeat_effect_until", "just_from", "defer", "let_value_with"}
+            "retry_when", "repeat_effect_until", "just_from", "defer"}
 FnNodes == {n \in Nodes : Kind(n) \in FnKinds}
 Ctxs == {Arg(n) : n \in SchedLeaves}
 Idx(q, k) == CHOOSE i \in 1..Len(Kids(q)) : Kids(q)[i] = k
@@ -172,7 +172,7 @@ DoStart(T, n) ==
     [] K = "just_void_or_done" -> Repl(T0, <<Sig("complete", n, IF Arg(n) = 1 THEN Val(<<>>) ELSE Done)>>)
     [] K = "just_from" ->
          Repl(CallFn(T0, n, <<>>), <<Sig("complete", n, IF cfg.throwAt = n THEN Thrown(n) ELSE Val(<<n>>))>>)
-    [] K \in {"defer", "let_value_with"} ->
+    [] K = "defer" ->     \* (let_value_with invokes its function at connect time: an identity node here)
          IF cfg.throwAt = n THEN Repl(CallFn(T0, n, <<>>), <<Sig("complete", n, Thrown(n))>>)
          ELSE Repl(CallFn(T0, n, <<>>), <<Sig("start", Kids(n)[1], NONE)>>)
     [] K = "variant" -> Repl(T0, <<Sig("start", Kids(n)[Arg(n)], NONE)>>)
